@@ -48,7 +48,7 @@ func isPartial(p Partial) bool {
 	return false
 }
 
-const refInf = int64(1)<<62 // stands for the library's infinity in completed upper bounds
+const refInf = int64(1) << 62 // stands for the library's infinity in completed upper bounds
 
 // hyphenRejected: the library's hyphen rule rejects `lo - hi`: hi orders below
 // lo as written (libLessPartial), or after completion (lo: wildcards and missing
